@@ -160,6 +160,8 @@ def gen_case(rng, tier, est=None, seeded=None):
             fits_done += 1
     case["chunks"] = chunks
     case["ops"] = ops
+    # an "integer random_state" may be a Python int or any NumPy integer scalar
+    case["cfg"]["rs_type"] = rng.choice(["int", "int", "int64", "int32", "uint32", "uint64"])
     return case
 
 
@@ -211,10 +213,16 @@ def _present(case, o):
     return out
 
 
+def _seed(cfg):
+    t = cfg.get("rs_type", "int")
+    return int(cfg["rs"]) if t == "int" else getattr(np, t)(cfg["rs"])
+
+
 def _fit(case, o, rec, label):
     from bob.learn.em import GMMMachine, KMeansMachine, ISVMachine, JFAMachine, WCCN
 
-    est, cfg = case["kind"], case["cfg"]
+    est, cfg = case["kind"], dict(case["cfg"])
+    cfg["rs"] = _seed(cfg)
     data = _present(case, o)
     chunks = tuple(case["chunks"])
     backend = o["backend"]
@@ -332,6 +340,16 @@ def run_case(case, replay=None):
     np.random.seed(12345)
     if _near_tie(case, None):
         return Result.skip("near-tie", **rec.fields())
+    if est == "wccn":
+        X, yy = A(case["X"]), np.array(case["y"])
+        S = np.zeros((X.shape[1], X.shape[1]))
+        for lab in set(case["y"]):
+            Z = X[yy == lab] - X[yy == lab].mean(axis=0)
+            S += Z.T @ Z
+        with np.errstate(all="ignore"):
+            cond = np.linalg.cond(S)
+        if not np.isfinite(cond) or cond > 1e6:
+            return Result.skip("ill-conditioned", **rec.fields())
     results = []  # (op index, pres, backend, params, perm, sigma)
     events_between = 0
     interleaved = False
